@@ -387,6 +387,16 @@ def real_stream(ctx, mods):
         src_eas(ctx, beta, alt, E, np.arange(n, dtype=np.float64), np.zeros(n), p["area"], p["qe"], p["thr"], kd, kt, pe, cos)
         ctx.count("real.kernel_calls", len(calls))
         ctx.traces += 1
+    # ---- more events than one scheduler partition holds (the kernel is evaluated in partitions of 100): every event of a
+    # 130-event batch, all of them in range so that the kernel batch really spans two partitions of different length, must still
+    # get ITS OWN kernel output (the recorder identifies events by the latitude slot, not by position in the result)
+    nb_ = 130
+    beta_b = np.radians(rng.uniform(1.0, 42.0, nb_)); alt_b = rng.uniform(0.05, 19.5, nb_); E_b = 10 ** rng.uniform(-1.0, 1.0, nb_)
+    cfg_b = make_cfg(nss, Detector, np.float64(525.0), 2.5, 0.2, 10.0)
+    pe_b, cos_b, kd_b, kt_b, asked_b, calls_b = run_real(mods, cfg_b, beta_b, alt_b, E_b)
+    check_events(ctx, "real_two_partitions", alt_b, kd_b, kt_b, 2.5, 0.2, 10.0, pe_b, cos_b, asked_b, "two_partitions")
+    check_batch(ctx, "real_two_partitions", alt_b, kd_b, kt_b, 2.5, 0.2, 10.0, pe_b, cos_b, asked_b)
+    ctx.count("real.kernel_calls", len(calls_b))
     # ---- what the calling program logs is inert: the same batch with DEBUG logging switched on (in-process kernel, so the
     # library's loggers see the level), at the reference orbit and at two other detector altitudes
     import logmode
